@@ -405,6 +405,15 @@ func c19Mismatch(r *h.Run, dir string, files []string, cases []c19Case, dump []b
 			}
 		}, true},
 		{"unparsable", rewrite(func(s string) string { return "package main\n\nfunc {{{ not go\n" + s }), true},
+		{"syntax-error-appended", rewrite(func(s string) string { return s + "\nfunc broken( {\n" }), true},
+		{"syntax-error-in-first-function", rewrite(func(s string) string { return strings.Replace(s, "\nfunc ", "\nfnc ", 1) }), true},
+		{"syntax-error-in-every-third-function", rewrite(func(s string) string {
+			parts := strings.Split(s, "\nfunc ")
+			for i := 1; i < len(parts); i += 3 {
+				parts[i] = "\x00" + parts[i]
+			}
+			return strings.ReplaceAll(strings.Join(parts, "\nfunc "), "\nfunc \x00", "\nfnc ")
+		}), true},
 		{"truncated-to-10-lines", rewrite(func(s string) string { return strings.Join(strings.SplitN(s, "\n", 11)[:10], "\n") + "\n" }), false},
 		{"empty-file", rewrite(func(s string) string { return "package main\n" }), true},
 		{"shifted-3-lines", rewrite(func(s string) string { return strings.Replace(s, "package main\n", "package main\n\n\n\n", 1) }), false},
